@@ -41,7 +41,10 @@ type Prog struct {
 
 // Load type-checks and SSA-builds every package of the repo for the given GOARCH.
 // Packages that cannot be built for the architecture for a documented reason are listed in skip.
-func Load(repo, arch string) (*Prog, error) {
+func Load(repo, arch string) (*Prog, error) { return LoadOverlay(repo, arch, nil) }
+
+// LoadOverlay is Load with some files replaced by the given contents (the normalised view).
+func LoadOverlay(repo, arch string, overlay map[string][]byte) (*Prog, error) {
 	env := append(os.Environ(),
 		"GOFLAGS=-mod=mod", "GOPROXY=off", "GOSUMDB=off", "GOWORK=off", "GOTOOLCHAIN=local",
 		"GOOS=linux", "GOARCH="+arch)
@@ -54,6 +57,7 @@ func Load(repo, arch string) (*Prog, error) {
 		Env:        env,
 		Tests:      false,
 		BuildFlags: []string{"-tags=verif"},
+		Overlay:    overlay,
 	}
 	pkgs, err := packages.Load(cfg, "./...")
 	if err != nil {
